@@ -127,6 +127,36 @@ example : (includeCtx true default [(b!"a", .int 1)]).lookup b!"b" = none ∧
 
 end inclusion
 
+section compile
+variable (T : LexTables) (cfg : SetCfg)
+
+/-- **A missing name is an error — or nothing, with `if_exists`**: when the file an `include` names
+    (resolved against the including template) is served by no loader, the tag is a compile error
+    without `if_exists`; with it the tag compiles to the node that renders nothing (and the fetch
+    attempts stay in the log). -/
+theorem include_missing_is_error_or_nothing (fuel : Nat) (start close f : Tok) (args a1 a2 : PS) (ifExists : Bool) (ds : DS) (e : PErr)
+    (hs : start.val = b!"include") (hm : args.matchType .str = some (f, a1))
+    (ho : a1.optIdent b!"if_exists" = (ifExists, a2))
+    (hff : fromFile T cfg fuel ds.cs (resolveFilename ds.ts.isString ds.ts.name f.val) = .error e)
+    (hk : e.kind = .fromfile) (hfile : e.file = resolveFilename ds.ts.isString ds.ts.name f.val) :
+    tagParser T cfg (fuel + 1) start close args ds =
+      if ifExists then
+        .ok (.tagInclude .empty false [], some close,
+          { ds with cs := { ds.cs with fetchLog := ds.cs.fetchLog ++
+              (cfg.loaders.zipIdx.map fun (_, i) => (i, Path.abs [] (resolveFilename ds.ts.isString ds.ts.name f.val))) } })
+      else .error e := by
+  unfold tagParser
+  rw [if_neg (by rw [hs]; decide), if_neg (by rw [hs]; decide), if_neg (by rw [hs]; decide), if_neg (by rw [hs]; decide),
+    if_neg (by rw [hs]; decide), if_neg (by rw [hs]; decide), if_neg (by rw [hs]; decide), if_neg (by rw [hs]; decide),
+    if_neg (by rw [hs]; decide), if_neg (by rw [hs]; decide), if_neg (by rw [hs]; decide), if_neg (by rw [hs]; decide),
+    if_pos (by rw [hs]; decide)]
+  have hk' : (e.kind == ErrKind.fromfile) = true := by rw [hk]; rfl
+  have hf' : (e.file == resolveFilename ds.ts.isString ds.ts.name f.val) = true := by rw [hfile]; simp
+  cases ifExists <;>
+    simp [hm, ho, hff, hk', hf', bind, Except.bind, pure, Except.pure]
+
+end compile
+
 /-- outside template_loader.go the only use of os / io/fs / ioutil / net/http
     file or network access is `Error.RawLine` (a diagnostic helper that is not
     on any compile or execute path) -/
